@@ -22,7 +22,7 @@ Deterministic pre-emption, all from the harness (nothing in /repo is edited):
     whole request ("split").
 `pyramid.view._find_views` is wrapped read-only to record (arguments, returned list, dict afterwards) per call.
 """
-import itertools, json, signal, sys, threading, time
+import inspect, itertools, json, signal, sys, threading, time
 
 from zope.interface import Interface
 
@@ -133,6 +133,7 @@ def make_config(regs):
     config.add_route('r', '/r/*traverse')
     config.add_route('g', '/g/*traverse', use_global_views=True)
     config.add_view(boom_view, name='boom')
+    config.add_view(boom_view, name='boom', route_name='r')
     config.commit()
     for r in regs:
         apply_reg(config, r)
@@ -188,24 +189,54 @@ _LIVE = {}
 _orig_find_views = pview._find_views
 
 
-def _w_find_views(registry, request_iface, context_iface, view_name, view_types=None, view_classifier=None):
+INSTR_NOTES = {}          # what the instrumentation could not do on this tree (reported in the evidence)
+
+
+_SIGS = {}
+
+
+def _note(msg):
+    INSTR_NOTES[msg] = INSTR_NOTES.get(msg, 0) + 1
+
+
+def _bind(func, a, kw, names):
+    """the named arguments of a call, whatever way they were passed; None when the callee's signature cannot take
+    the call or lacks one of the names (the wrapper then only forwards)"""
+    try:
+        f = getattr(func, '__func__', func)
+        sig = _SIGS.get(f)
+        if sig is None:
+            sig = _SIGS[f] = inspect.signature(func)
+        ba = sig.bind(*a, **kw)
+        ba.apply_defaults()
+        args = ba.arguments
+        return [args[n] for n in names]
+    except Exception:
+        return None
+
+
+def _w_find_views(*a, **kw):
+    """signature-agnostic, read-only recorder around pyramid.view._find_views"""
+    got = _bind(_orig_find_views, a, kw, ['registry', 'request_iface', 'context_iface', 'view_name', 'view_types', 'view_classifier'])
+    if got is None:
+        _note('_find_views has an unknown signature: lookups are not recorded (no correspondence, oracle continues)')
+        return _orig_find_views(*a, **kw)
+    registry, request_iface, context_iface, view_name, view_types, view_classifier = got
     live = _LIVE.get(id(registry))
     if live is None or live.in_injection or not live.recording:
-        return _orig_find_views(registry, request_iface, context_iface, view_name, view_types=view_types,
-                                view_classifier=view_classifier)
+        return _orig_find_views(*a, **kw)
     call = {'q': (view_classifier or IViewClassifier, request_iface, context_iface, view_name, view_types or VIEW_TYPES),
             'slots': [], 'inject': None, 'idx': live.req_calls, 'key': None}
     live.req_calls += 1
     live.calls.append(call)
     prev, live.cur_call = live.cur_call, call
     try:
-        res = _orig_find_views(registry, request_iface, context_iface, view_name, view_types=view_types,
-                               view_classifier=view_classifier)
+        res = _orig_find_views(*a, **kw)
         call['res'] = list(res)
         call['res_obj'] = res
     finally:
         live.cur_call = prev
-        call['dict'] = dict((k, list(v)) for k, v in registry._view_lookup_cache.items())
+        call['dict'] = live.snapshot()
     return res
 
 
@@ -275,18 +306,39 @@ class Live:
         self.calls, self.cur_call, self.req_calls = [], None, 0
         self.armed, self.in_injection, self.split = None, False, None
         self.modlog = []
-        ad = reg.adapters
-        self.o_registered, self.o_register, self.o_unregister = ad.registered, ad.register, ad.unregister
-        ad.registered, ad.register, ad.unregister = self.w_registered, self.w_register, self.w_unregister
-        self.o_clear = reg._clear_view_lookup_cache
-        reg._clear_view_lookup_cache = self.w_clear
-        d = IDict(reg._view_lookup_cache)
-        d.live = self
-        reg._view_lookup_cache = d
+        # every wrapper forwards `*a, **kw` unchanged and only LOOKS at the arguments it can bind by name; a method that
+        # is absent or renamed is simply not wrapped (no pre-emption / no log at that point, noted in the evidence)
+        ad = getattr(reg, 'adapters', None)
+        self.o_registered = getattr(ad, 'registered', None)
+        self.o_register = getattr(ad, 'register', None)
+        self.o_unregister = getattr(ad, 'unregister', None)
+        for nm, orig, wrapper in (('registered', self.o_registered, self.w_registered), ('register', self.o_register, self.w_register),
+                                  ('unregister', self.o_unregister, self.w_unregister)):
+            if orig is None:
+                _note('registry.adapters.%s is absent: not instrumented' % nm)
+            else:
+                setattr(ad, nm, wrapper)
+        if self.o_registered is None:
+            self.o_registered = lambda *a, **kw: None
+        self.o_clear = getattr(reg, '_clear_view_lookup_cache', None)
+        if self.o_clear is None:
+            _note('registry._clear_view_lookup_cache is absent: not instrumented')
+        else:
+            reg._clear_view_lookup_cache = self.w_clear
         self.deadlock = False
         self.recording = True
-        self.ilock = ILock(reg._lock, self)
-        reg._lock = self.ilock
+        if isinstance(getattr(reg, '_view_lookup_cache', None), dict):
+            d = IDict(reg._view_lookup_cache)
+            d.live = self
+            reg._view_lookup_cache = d
+        else:
+            _note('registry._view_lookup_cache is absent or not a dict: not instrumented')
+        if hasattr(reg, '_lock'):
+            self.ilock = ILock(reg._lock, self)
+            reg._lock = self.ilock
+        else:
+            _note('registry._lock is absent: not instrumented')
+            self.ilock = ILock(threading.Lock(), self)
         _LIVE[id(reg)] = self
         pview._find_views = _w_find_views
 
@@ -296,14 +348,15 @@ class Live:
             pview._find_views = _orig_find_views
 
     # -- the cache clear keeps whatever the real method did; a NEW plain dict is re-wrapped for observation
-    def w_clear(self):
-        before = self.reg._view_lookup_cache
-        self.o_clear()
-        after = self.reg._view_lookup_cache
+    def w_clear(self, *a, **kw):
+        before = getattr(self.reg, '_view_lookup_cache', None)
+        r = self.o_clear(*a, **kw)
+        after = getattr(self.reg, '_view_lookup_cache', None)
         if after is not before and type(after) is dict:
             d = IDict(after)
             d.live = self
             self.reg._view_lookup_cache = d
+        return r
 
     # -- lookups
     def on_point(self, point, key=None):
@@ -314,14 +367,18 @@ class Live:
         if c is not None and a is not None and not self.in_injection and a['f'] == c['idx'] and a['at'] == point:
             self.fire()
 
-    def w_registered(self, required, provided, name=''):
+    def w_registered(self, *a, **kw):
         c = self.cur_call
         if c is not None and not self.in_injection:
-            a = self.armed
-            if a is not None and a['f'] == c['idx'] and a['at'] == len(c['slots']):
-                self.fire()
-            c['slots'].append((tuple(required), provided, name))
-        return self.o_registered(required, provided, name)
+            got = _bind(self.o_registered, a, kw, ['required', 'provided', 'name'])
+            if got is None:
+                _note('adapters.registered has an unknown signature: no pre-emption inside the scan')
+            else:
+                arm = self.armed
+                if arm is not None and arm['f'] == c['idx'] and arm['at'] == len(c['slots']):
+                    self.fire()
+                c['slots'].append((tuple(got[0]), got[1], got[2]))
+        return self.o_registered(*a, **kw)
 
     def fire(self):
         if self.ilock.held_by_me():
@@ -364,12 +421,19 @@ class Live:
         sp['resp'] = send(self.app, sp['get'])
         sp['calls'] = self.calls[n0:]
 
-    def w_register(self, required, provided, name, value):
-        return self._mutation(required, provided, name, value, lambda: self.o_register(required, provided, name, value))
+    def w_register(self, *a, **kw):
+        got = _bind(self.o_register, a, kw, ['required', 'provided', 'name', 'value'])
+        if got is None:
+            _note('adapters.register has an unknown signature: adapter mutations are not logged')
+            return self.o_register(*a, **kw)
+        return self._mutation(got[0], got[1], got[2], got[3], lambda: self.o_register(*a, **kw))
 
-    def w_unregister(self, required, provided, name, value=None):
-        return self._mutation(required, provided, name, None,
-                              lambda: self.o_unregister(required, provided, name, value))
+    def w_unregister(self, *a, **kw):
+        got = _bind(self.o_unregister, a, kw, ['required', 'provided', 'name'])
+        if got is None:
+            _note('adapters.unregister has an unknown signature: adapter mutations are not logged')
+            return self.o_unregister(*a, **kw)
+        return self._mutation(got[0], got[1], got[2], None, lambda: self.o_unregister(*a, **kw))
 
     # -- operations
     def do_get(self, q, inject=None):
@@ -393,8 +457,13 @@ class Live:
         self.applied.append(r)
         return self.modlog[n0:], sp
 
+    def snapshot_raw(self):
+        c = getattr(self.reg, '_view_lookup_cache', None)
+        return c if isinstance(c, dict) else {}
+
     def snapshot(self):
-        return dict((k, list(v)) for k, v in self.reg._view_lookup_cache.items())
+        c = getattr(self.reg, '_view_lookup_cache', None)
+        return dict((k, list(v)) for k, v in c.items()) if isinstance(c, dict) else {}
 
 
 # ------------------------------------------------------------------------------------------------------
@@ -452,7 +521,7 @@ def stale_entries(live, trace):
     for t in trace:
         for c in t.get('calls', []):
             seen[c['key']] = c['q']
-    cache = live.reg._view_lookup_cache
+    cache = live.snapshot_raw()
     for key in list(cache.keys()):
         q = seen.get(key)
         if q is None:
@@ -502,7 +571,7 @@ def _run_op(live, i, op, kind, before_regs, trace, viol):
                     q = {'name': 'zz%d_%d' % (i, n), 'ctx': op.get('ctx', 'C')}
                     resp, calls, _ = live.do_get(q)
                     allcalls += calls
-                    sizes.append(len(live.reg._view_lookup_cache))
+                    sizes.append(len(live.snapshot_raw()))
                     exp = fresh_response(before_regs, q)
                     if resp != exp:
                         viol.append({'at': i, 'kind': 'response', 'impl': resp, 'expected': [exp],
@@ -546,7 +615,7 @@ def census(registry, max_depth=8):
     each object once, to a bounded depth; leaves (str, numbers, interfaces, classes, modules) are not entered"""
     import collections, types
     seen, total = set(), 0
-    roots = [list(registry._view_lookup_cache.values())]
+    roots = [list((getattr(registry, '_view_lookup_cache', None) or {}).values())]
     roots += [a.factory for a in registry.registeredAdapters() if a.provided in VIEW_TYPES]
     stack = [(r, 0) for r in roots]
     while stack:
@@ -918,6 +987,27 @@ def gen_case(rng, maxops=8):
     return {'init': init, 'ops': ops}
 
 
+def enumerate_replace():
+    """warm cache ; replacement at run time ; the same request again — through every request interface: plain, the
+    use_global_views route answered by a SITE-WIDE view, routed views that raise answered by a SITE-WIDE exception view
+    (both routes), the 404 path; replacements: same discriminator, predicate sibling (multiview), more specific context,
+    replaced exception view, notfound view; cold variant and a second unrelated request in between"""
+    init = [{'kind': 'view', 'tag': 'G0', 'context': None, 'name': ''}, {'kind': 'view', 'tag': 'G1', 'context': None, 'name': 'x'},
+            {'kind': 'exc', 'tag': 'X0'}]
+    reqs = [{'name': 'x', 'ctx': 'C'}, {'name': 'x', 'ctx': 'C', 'route': 'g'}, {'name': '', 'ctx': 'B', 'route': 'g'},
+            {'name': 'boom', 'ctx': 'C'}, {'name': 'boom', 'ctx': 'C', 'route': 'g'}, {'name': 'boom', 'ctx': 'C', 'route': 'r'},
+            {'name': 'nope', 'ctx': 'C', 'route': 'r'}]
+    regs = [{'kind': 'view', 'tag': 'N1', 'context': None, 'name': 'x'}, {'kind': 'view', 'tag': 'N0', 'context': None, 'name': ''},
+            {'kind': 'view', 'tag': 'N2', 'context': None, 'name': 'x', 'param': 'p'}, {'kind': 'view', 'tag': 'N3', 'context': 'A', 'name': 'x'},
+            {'kind': 'exc', 'tag': 'X1'}, {'kind': 'nf', 'tag': 'F1'}]
+    for q in reqs:
+        for reg in regs:
+            yield {'init': init, 'ops': [{'op': 'get', 'req': q}, {'op': 'reg', 'reg': reg}, {'op': 'get', 'req': q}]}
+            yield {'init': init, 'ops': [{'op': 'reg', 'reg': reg}, {'op': 'get', 'req': q}]}
+            yield {'init': init, 'ops': [{'op': 'get', 'req': q}, {'op': 'get', 'req': reqs[0]}, {'op': 'reg', 'reg': reg},
+                                         {'op': 'get', 'req': reqs[0]}, {'op': 'get', 'req': q}]}
+
+
 def enumerate_multiview():
     """small-scope enumeration on ONE slot (no context, name 'x') holding a multiview with accept= members: (optional
     request with Accept header H, method m) ; a registration that adds a member without accept / with accept, or
@@ -1137,6 +1227,9 @@ def run(ctx):
         cases += small
         exhaustive = True
         notes.append('small-scope enumeration: %d cases (3 initial apps x 5 registrations x 3 URLs x cold/warm x every injection point of the first/second lookup, every registrar pre-emption point)' % len(small))
+        rpl = list(enumerate_replace())
+        cases += rpl
+        notes.append('replacement enumeration: %d cases (7 requests through every request interface x 6 run-time replacements x warm / cold / interleaved)' % len(rpl))
         mvc = list(enumerate_multiview())
         cases += mvc
         notes.append('multiview enumeration: %d cases (3 multiviews with accept members x 4 registrations (add without/with accept, replace, catch-all) x 4 Accept headers x methods x warm/cold, + odd-request bursts)' % len(mvc))
@@ -1149,6 +1242,7 @@ def run(ctx):
         cases += ifc + [longer[i] for i in sorted(rng.sample(range(len(longer)), 60))]
         mvc = list(enumerate_multiview())
         cases += [mvc[i] for i in sorted(rng.sample(range(len(mvc)), 70))] + mvc[-2:]
+        cases += list(enumerate_replace())
         small = list(enumerate_small(limit_points=['probe', 'write', 0, 4, 7, 8, 13, 29]))
         small = [small[i] for i in sorted(rng.sample(range(len(small)), 120))]
         cases += small
@@ -1179,6 +1273,7 @@ def run(ctx):
         else:
             out_viol.append(vs[0])
     dist['violations_by_class'] = dict((str(k), len(v)) for k, v in by.items())
+    dist['instrumentation_notes'] = dict(INSTR_NOTES)
     search_info = None
     if (not ctx.build_ok or mism) and out_viol and all(v.get('finding') for v in out_viol):
         # (the runner starts the search itself when there is no violation at all; kept here so that the search
@@ -1198,7 +1293,7 @@ def run(ctx):
                             'zope.interface adapter registry: registered()/register()/unregister() are atomic and read the current registrations; __sro__ is fixed while serving',
                             'one registrar at a time (configuration actions are executed by a single thread)',
                             'the registrations (which adapter mutations a registration performs) are taken from the real register_view, logged at adapters.register/unregister'],
-            'trusted_base': ['extract/c15.py (ast facts of _find_views / add_view.register / Registry._clear_view_lookup_cache)']}
+            'trusted_base': ['extract/c15.py (facts probed by running _find_views / Registry / Configurator of the tree under test)']}
 
 
 # ------------------------------------------------------------------------------------------------------
@@ -1346,7 +1441,7 @@ def search(ctx):
     """failing-input search on the implementation only (no model): the small-scope enumeration, then random"""
     viol, n = [], 0
     exhaustive = True
-    gens = itertools.chain(enumerate_multiview(), enumerate_ifaces(4, 3), enumerate_small(limit_points=['probe', 'write', 0, 1, 2, 3, 4, 5, 6, 7, 8, 9, 10, 11, 13, 16, 29]),
+    gens = itertools.chain(enumerate_replace(), enumerate_multiview(), enumerate_ifaces(4, 3), enumerate_small(limit_points=['probe', 'write', 0, 1, 2, 3, 4, 5, 6, 7, 8, 9, 10, 11, 13, 16, 29]),
                            (gen_case(ctx.rng) for _ in range(ctx.n(600, 5000))))
     for case in gens:
         n += 1
